@@ -126,6 +126,11 @@ def add_unrelated_gc(js, rng, first=False):
                  "cost": {"type": "fixed", "value": rng.choice([0.1, 0.4])}} for t in times]
     half = len(mirrored) // 2
     js["events"]["grid_operator_signals"] = mirrored[:half] + js["events"]["grid_operator_signals"] + mirrored[half:]
+    # a limit signal for the unrelated connector only, announced at the start and taking effect in the second half of the run: a
+    # look-ahead that does not filter signals by connector plans the existing connector with it (round-4 seed C16-s10)
+    nn = js["scenario"]["n_intervals"]
+    js["events"]["grid_operator_signals"].append({"signal_time": js["scenario"]["start_time"], "start_time": scen.iso(start + iv * max(1, nn // 2)),
+                                                  "grid_connector_id": xg, "max_power": rng.choice([3, 5])})
     if first:
         # the unrelated connector comes FIRST in every component dictionary and owns a charged stationary battery: per-connector
         # state that a strategy forgets to reset leaks from it into the existing connectors (round-3 seed C16-s7)
@@ -199,6 +204,22 @@ class HistoryUnit(corr.Unit):
                 v.update({"soc": 0.1, "desired_soc": 1.0})
             out.append({"js": js, "strategy": ["greedy", "balanced", "distributed", "greedy"][k], "options": {"ALLOW_NEGATIVE_SOC": True},
                         "weeks": 1, "other": "balanced", "seed": 2 * rng.randrange(10**5)})
+        for k in range(min(n, 2)):
+            # peak_load_window: vehicles that have to charge inside a window (short standing time), start shortly before the 08:00 window
+            js = scen.gen_scenario(rng, n_gc=1, n_veh=2, features=set(), steps=8, interval=60)
+            js.pop("_features", None)
+            js["scenario"]["start_time"] = "2023-01-03T06:00:00" + scen.TZ
+            js = shift_js(js, 0)
+            st_ = datetime.datetime.fromisoformat(js["scenario"]["start_time"])
+            for g in js["components"]["grid_connectors"].values():
+                g["max_power"] = 30
+            for i_, v in enumerate(js["components"]["vehicles"].values()):
+                cs_ = [c for c in js["components"]["charging_stations"]][i_]
+                v.update({"soc": 0.2, "desired_soc": 0.9, "connected_charging_station": cs_,
+                          "estimated_time_of_departure": scen.iso(st_ + datetime.timedelta(hours=5 + i_))})
+            js["events"]["vehicle_events"] = []
+            out.append({"js": js, "strategy": "peak_load_window", "options": {"ALLOW_NEGATIVE_SOC": True, "time_windows": tw_path()},
+                        "weeks": 1, "other": "greedy", "seed": 2 * rng.randrange(10**5) + k})
         for _ in range(n - len(out)):
             strategy = rng.choice(["greedy", "balanced", "distributed", "balanced_market", "peak_shaving", "peak_shaving", "peak_load_window"])
             slow = strategy in ("balanced_market", "peak_shaving", "peak_load_window")
